@@ -215,7 +215,10 @@ def lean_parser(info, ident):
 
 # the schemas whose export→import tables are written to lean/Gen/RoundTrip.lean, with the expected value of the schema part
 # `rtSchemaOk` (a fixed table: a value that flips because /repo changed a `toDOM` / `parseDOM` makes the theorem fail)
-RT_SCHEMAS = {"basic": True, "list": True}
+RT_SCHEMAS = {"basic": True, "list": True, "marks-on-doc": True,
+              # family variants with a node type that has no `toDOM` / `parseDOM` (title, body, iso, table / row / cell, note /
+              # caption): the serializer has nothing to emit for it — the schema part is false, the theorem does not close
+              "title": False, "heading-body": False, "iso": False, "table": False, "marks-x": False}
 RT_TABLES = {}   # schema name → harness/rt_tables.py: tables(info) of the freshly built schema (a str: why it has none)
 
 
@@ -277,11 +280,15 @@ def render_roundtrip(items):
             lr += ["-- schema `%s`: no tables (%s)" % (name, T if isinstance(T, str) else "parser not translated"), ""]
             continue
         lr += lean_rt(name, ident, T)
-        lr += ["/-- the schema part of the hypothesis of the round-trip theorem (Props/C19.lean: roundtrip_of_parts), decided by the",
-               "    kernel on the tables above: every node / mark type of `%s` is, at its default attributes and at the static `attrs`" % name,
-               "    of its parse rules, emitted in a form its first matching rule reads back as the same type with the same attributes -/",
-               "theorem %s_rtSchemaOk : rtSchemaOk r%s d%s = %s := by decide +kernel" % (
-                   lname(ident), ident, ident, lean_bool(RT_SCHEMAS[name])), ""]
+        if RT_SCHEMAS[name]:
+            lr += ["/-- the schema part of the hypothesis of the round-trip theorem (Props/C19.lean: roundtrip_of_parts), decided by the",
+                   "    kernel on the tables above: every node / mark type of `%s` is, at its default attributes and at the static `attrs`" % name,
+                   "    of its parse rules, emitted in a form its first matching rule reads back as the same type with the same attributes -/"]
+        else:
+            lr += ["/-- the schema part of the hypothesis of the round-trip theorem is *false* of `%s` (kernel-evaluated): some node type" % name,
+                   "    has no `toDOM`, or is emitted in a form no rule reads back — `roundtrip_of_parts` does not close for this schema -/"]
+        lr += ["theorem %s_rtSchemaOk : rtSchemaOk r%s d%s = %s := by decide +kernel" % (
+            lname(ident), ident, ident, lean_bool(RT_SCHEMAS[name])), ""]
     lr += ["end PM.Gen.RoundTrip"]
     return "\n".join(lr) + "\n"
 
